@@ -151,6 +151,18 @@ def _kw(call, name):
 
 
 def generate(repo):
+    try:
+        return _generate(repo)
+    except Exception as e:  # noqa
+        # fail closed: a stale Gen/Gen_c12.v from an earlier run must not survive a failed extraction
+        from ..core import COQ, write_if_changed
+        write_if_changed(os.path.join(COQ, 'Gen', 'Gen_c12.v'),
+                         '(* GENERATED by tools/sfv/props/c12.py generate(): extraction FAILED, nothing is defined here.\n'
+                         f'   {type(e).__name__}: {str(e)[:300].replace("*)", "* )")} *)\n')
+        raise
+
+
+def _generate(repo):
     def parse(rel):
         with open(os.path.join(repo, rel)) as f:
             return ast.parse(f.read())
@@ -627,7 +639,7 @@ def sifo_cases(ctx):
     from static_frame.core.container_util import sort_index_for_order
     from static_frame.core.util import DEFAULT_SORT_KIND
     rng = ctx.rng
-    for _ in range(ctx.n(250, 4000)):
+    for _ in range(ctx.n(400, 4000)):
         depth = rng.choice((1, 1, 2, 2, 3))
         n = rng.randint(0, 7) if depth == 1 else rng.randint(1, 7)
         labels = pick_index(rng, n, depth)
@@ -667,6 +679,516 @@ def sifo_cases(ctx):
                    tags=tags, nontrivial=nontrivial(keys, n))
 
 
+# --------------------------------------------------------------------------- containers
+def sframe_lit(f, idepth, cdepth):
+    return f'(mk_sframe {lit.oframe(f)} {idepth}%nat {cdepth}%nat)'
+
+
+def sseries_lit(sr, idepth):
+    return f'(mk_sseries {lit.oseries(sr)} {idepth}%nat)'
+
+
+def gen_kinds(rng, ncols, comparable=False):
+    if comparable:
+        if rng.random() < 0.25:
+            return ['str'] * ncols
+        return [rng.choice(('int', 'float', 'bool', 'int')) for _ in range(ncols)]
+    return [rng.choice(KINDS) for _ in range(ncols)]
+
+
+def gen_cols(rng, kinds, nrows):
+    cols = [gen_col(rng, k, nrows, distinct=rng.randint(2, 4)) for k in kinds]
+    if 'bool' in kinds and 'float' in kinds:
+        # a row over bool+float columns is an object array: keep NaN out of it (Python comparisons with NaN are not an order)
+        cols = [np.where(np.isnan(c), 0.5, c) if c.dtype.kind == 'f' else c for c in cols]
+    return cols
+
+
+def make_frame(rng, nrows, ncols, idepth=1, cdepth=1, comparable=False, layout=None, kinds=None):
+    ilabels = pick_index(rng, nrows, idepth)
+    nrows = len(ilabels)
+    clabels = pick_index(rng, ncols, cdepth)
+    ncols = len(clabels)
+    kinds = kinds or gen_kinds(rng, ncols, comparable)
+    cols = gen_cols(rng, kinds, nrows)
+    if layout is None:
+        layout = rng.choice(list(zoo.layouts_for([c.dtype for c in cols])))
+    name = rng.choice((None, 'F', 7))
+    f = zoo.frame_from_columns(cols, layout, index=mk_index(ilabels, idepth), columns=mk_index(clabels, cdepth), name=name)
+    return f, cols, ilabels, clabels, kinds, layout
+
+
+def hier_tag(tags, depth, labels, keys, asc):
+    # tag the input class "hierarchical axis whose specified arrangement is not in tree form"
+    if depth > 1 and labels:
+        o = np_order(keys, asc)
+        if not is_tree_form([tuple(labels[i]) for i in o]):
+            tags['finding'] = 'C12-hier-untree'
+    return tags
+
+
+def run_obs(fn, printer):
+    with np.errstate(all='ignore'):
+        text, out = lit.res(fn, printer)
+    return text, out
+
+
+def keyres_of(kfn, items, axis0=False):
+    if kfn is None:
+        return None
+    r = kfn.returned
+    if r is None:
+        keys = [tuple(kfn.kf(t)) for t in items]
+        r = build_keyres(keys, kfn.out, axis0=axis0)
+        if kfn.mangle is not None:
+            r = kfn.mangle(r)
+    return cfs_lit(r, axis0=axis0)
+
+
+def frame_sort_values_case(ctx, rng, f, cols, ilabels, clabels, idepth, cdepth, layout, axis, sel, single, asc, kfspec, stratum, mangle=None, mangle_name=None):
+    nrows, ncols = f.shape
+    if axis == 1:
+        label = clabels[sel[0]] if single else [clabels[j] for j in sel]
+        items = [tuple(pyvals(cols[j])[i] for j in sel) for i in range(nrows)]
+        n, depth, labels = nrows, idepth, ilabels
+        default_keys = f'(map (col_vals {lit.oframe(f)}) {nat_list(sel)})'
+        keyvecs_py = [pyvals(cols[j]) for j in sel]
+    else:
+        label = ilabels[sel[0]] if single else [ilabels[i] for i in sel]
+        items = [tuple(pyvals(cols[j])[i] for i in sel) for j in range(ncols)]
+        n, depth, labels = ncols, cdepth, clabels
+        default_keys = f'(map (row_vals {lit.oframe(f)}) {nat_list(sel)})'
+        keyvecs_py = [[pyvals(cols[j])[i] for j in range(ncols)] for i in sel]
+    kfn = None
+    if kfspec is not None:
+        kname, kf, out = kfspec
+        kfn = KeyFn(kf, out, axis0=(axis == 0), mangle=mangle)
+        keyvecs_py = key_vectors(items, kf)
+        keys_lit = vecs_lit(keyvecs_py)
+    else:
+        keys_lit = default_keys
+    obs, _ = run_obs(lambda: f.sort_values(label, ascending=asc, axis=axis, key=kfn), lit.oframe)
+    keyres = keyres_of(kfn, items, axis0=(axis == 0))
+    tags = {'op': 'Frame.sort_values', 'axis': axis}
+    desc = {'call': f'frame.sort_values({label!r}, ascending={asc}, axis={axis}, key={kfspec and kfspec[0] + "->" + kfspec[2]}{"/" + mangle_name if mangle_name else ""})',
+            'frame': lit.oframe(f), 'layout': zoo.layout_str(layout), 'index_depth': idepth, 'columns_depth': cdepth, 'observed': obs}
+    m = f'oframe_res_eqb (M_frame_sort_values {P} {axis} {sframe_lit(f, idepth, cdepth)} {nat_list(sel)} {lit.b(single)} {opt(keyres)} {lit.b(asc)}) {obs}'
+    if mangle is not None:
+        sterm = f'@res_is_err oframe {obs}'
+        tags['malformed'] = mangle_name
+        nt = True
+    else:
+        sterm = f'oframe_res_eqb (Ok (S_frame_sort {axis} {lit.oframe(f)} {keys_lit} {lit.b(asc)})) {obs}'
+        hier_tag(tags, depth, labels, keyvecs_py, asc)
+        nt = nontrivial(keyvecs_py, n)
+    ctx.count(f'fsv:axis{axis}', f'fsv:nkeys{len(keyvecs_py)}', f'fsv:key:{kfspec[0] + "/" + kfspec[2] if kfspec else "none"}',
+              f'fsv:asc{int(asc)}', f'fsv:shape{nrows}x{ncols}', f'layout:{zoo.layout_str(layout)}', f'fsv:depth{depth}')
+    return Case(stratum, desc, m=m, s=sterm, tags=tags, nontrivial=nt)
+
+
+def frame_values_cases(ctx):
+    rng = ctx.rng
+    for _ in range(ctx.n(450, 5000)):
+        axis = rng.choice((1, 1, 0))
+        idepth = rng.choice((1, 1, 1, 2, 3)) if axis == 1 else rng.choice((1, 1, 2))
+        cdepth = rng.choice((1, 1, 2)) if axis == 1 else rng.choice((1, 1, 1, 2))
+        nrows = rng.randint(0 if idepth == 1 else 1, 6)
+        ncols = rng.randint(1, 4)
+        f, cols, il, cl, kinds, layout = make_frame(rng, nrows, ncols, idepth, cdepth, comparable=(axis == 0))
+        nrows, ncols = f.shape
+        other = ncols if axis == 1 else nrows
+        if other == 0:
+            continue
+        k = rng.randint(1, min(3, other))
+        sel = rng.sample(range(other), k)
+        single = k == 1 and rng.random() < 0.6
+        asc = rng.random() < 0.5
+        kfspec = None
+        if rng.random() < 0.45:
+            if (cdepth if axis == 1 else idepth) > 1:
+                # the key function receives frame[selection]: a hierarchical selection must itself be tree-ordered (C04 limitation)
+                sel = sorted(sel)
+            if axis == 1:
+                items = [tuple(pyvals(cols[j])[i] for j in sel) for i in range(nrows)]
+            else:
+                items = [tuple(pyvals(cols[j])[i] for i in sel) for j in range(ncols)]
+            if items:
+                outs = ('arr1', 'arr2', 'series', 'frame')
+                kfspec = pick_keyfn(rng, items, outs)
+        yield frame_sort_values_case(ctx, rng, f, cols, il, cl, idepth, cdepth, layout, axis, sel, single, asc, kfspec,
+                                     f'api:frame.sort_values-axis{axis}')
+
+
+def index_sort_pieces(rng, labels, depth, outs=('arr1', 'arr2', 'index', 'ih'), p_key=0.5):
+    # common to sort_index / sort_columns / Index.sort: optional key function on the index
+    items = label_items(labels, depth)
+    kfspec = None
+    if items and rng.random() < p_key:
+        kfspec = pick_keyfn(rng, items, outs)
+    if kfspec is not None:
+        kname, kf, out = kfspec
+        return KeyFn(kf, out), kfspec, key_vectors(items, kf), items
+    return None, None, [[t[d] for t in items] for d in range(depth)], items
+
+
+def one_col_2d(kfspec, keyvecs):
+    return kfspec is not None and kfspec[2] == 'arr2' and len(keyvecs) == 1
+
+
+def m_unless_2d_garbage(m, kfspec, keyvecs, depth, n):
+    # A 2-D one-column key result makes sort_index_for_order return a 2-D "order" (kernel stratum: Err "Order2D").
+    # What the callers then do with it is accidental (TypeError on flat axes; other errors, or even success for a
+    # one-row IndexHierarchy): the model says TypeError and is compared only where that is the modelled path.
+    if one_col_2d(kfspec, keyvecs) and (depth != 1 or n == 0):
+        return None
+    return m
+
+
+def frame_index_cases(ctx):
+    rng = ctx.rng
+    for _ in range(ctx.n(320, 4000)):
+        op = rng.choice(('sort_index', 'sort_columns'))
+        idepth = rng.choice((1, 1, 2, 3)) if op == 'sort_index' else 1
+        cdepth = rng.choice((1, 1, 2, 3)) if op == 'sort_columns' else rng.choice((1, 1, 2))
+        nrows = rng.randint(0 if idepth == 1 else 1, 6)
+        ncols = rng.randint(1, 4 if cdepth == 1 else 5)
+        f, cols, il, cl, kinds, layout = make_frame(rng, nrows, ncols, idepth, cdepth)
+        asc = rng.random() < 0.5
+        labels, depth = (il, idepth) if op == 'sort_index' else (cl, cdepth)
+        kfn, kfspec, keyvecs, items = index_sort_pieces(rng, labels, depth)
+        obs, _ = run_obs(lambda: getattr(f, op)(ascending=asc, key=kfn), lit.oframe)
+        keyres = keyres_of(kfn, items)
+        axis = 1 if op == 'sort_index' else 0
+        tags = {'op': f'Frame.{op}', 'depth': depth}
+        if one_col_2d(kfspec, keyvecs):
+            tags['finding'] = 'C12-key-2d-one-column'
+        elif kfspec is not None:
+            hier_tag(tags, depth, labels, keyvecs, asc)
+        mfun = 'M_frame_sort_index' if op == 'sort_index' else 'M_frame_sort_columns'
+        keys_lit = vecs_lit(keyvecs) if kfspec is not None else f'(index_keys {depth}%nat {lit.vlist(labels)})'
+        ctx.count(f'f.{op}:depth{depth}', f'f.{op}:key:{kfspec[0] + "/" + kfspec[2] if kfspec else "none"}', f'f.{op}:asc{int(asc)}',
+                  f'layout:{zoo.layout_str(layout)}', f'f.{op}:n{len(labels)}')
+        yield Case(f'api:frame.{op}',
+                   {'call': f'frame.{op}(ascending={asc}, key={kfspec and kfspec[0] + "->" + kfspec[2]})', 'frame': lit.oframe(f), 'layout': zoo.layout_str(layout),
+                    'index_depth': idepth, 'columns_depth': cdepth, 'observed': obs},
+                   m=m_unless_2d_garbage(f'oframe_res_eqb ({mfun} {P} {sframe_lit(f, idepth, cdepth)} {opt(keyres)} {lit.b(asc)}) {obs}', kfspec, keyvecs, depth, len(labels)),
+                   s=f'oframe_res_eqb (Ok (S_frame_sort {axis} {lit.oframe(f)} {keys_lit} {lit.b(asc)})) {obs}',
+                   tags=tags, nontrivial=nontrivial(keyvecs, len(labels)))
+
+
+def make_series(rng, n, idepth, kind=None):
+    import static_frame as sf
+    labels = pick_index(rng, n, idepth)
+    n = len(labels)
+    kind = kind or rng.choice(KINDS)
+    vals = gen_col(rng, kind, n, distinct=rng.randint(2, 4))
+    sr = sf.Series(vals, index=mk_index(labels, idepth), name=rng.choice((None, 'n', ('a', 1))))
+    return sr, vals, labels, kind
+
+
+def series_cases(ctx):
+    rng = ctx.rng
+    for _ in range(ctx.n(400, 4000)):
+        op = rng.choice(('sort_values', 'sort_values', 'sort_index'))
+        idepth = rng.choice((1, 1, 2, 3)) if op == 'sort_index' else rng.choice((1, 1, 1, 2))
+        n = rng.randint(0 if idepth == 1 else 1, 8)
+        sr, vals, labels, kind = make_series(rng, n, idepth)
+        n = len(labels)
+        asc = rng.random() < 0.5
+        tags = {'op': f'Series.{op}', 'depth': idepth}
+        if op == 'sort_index':
+            kfn, kfspec, keyvecs, items = index_sort_pieces(rng, labels, idepth)
+            if one_col_2d(kfspec, keyvecs):
+                tags['finding'] = 'C12-key-2d-one-column'
+            elif kfspec is not None:
+                hier_tag(tags, idepth, labels, keyvecs, asc)
+            keys_lit = vecs_lit(keyvecs) if kfspec is not None else f'(index_keys {idepth}%nat {lit.vlist(labels)})'
+            mfun = 'M_series_sort_index'
+        else:
+            items = [(v,) for v in pyvals(vals)]
+            kfspec = pick_keyfn(rng, items, ('arr1', 'series')) if (items and rng.random() < 0.5) else None
+            if kfspec is not None:
+                kfn = KeyFn(kfspec[1], kfspec[2])
+                keyvecs = key_vectors(items, kfspec[1])
+                keys_lit = vecs_lit(keyvecs)
+            else:
+                kfn = None
+                keyvecs = [pyvals(vals)]
+                keys_lit = f'[os_values {lit.oseries(sr)}]'
+            hier_tag(tags, idepth, labels, keyvecs, asc)
+            mfun = 'M_series_sort_values'
+        obs, _ = run_obs(lambda: getattr(sr, op)(ascending=asc, key=kfn), lit.oseries)
+        keyres = keyres_of(kfn, items)
+        ctx.count(f's.{op}:depth{idepth}', f's.{op}:key:{kfspec[0] + "/" + kfspec[2] if kfspec else "none"}', f's.{op}:asc{int(asc)}',
+                  f's.{op}:kind:{kind}', f's.{op}:n{n}')
+        yield Case(f'api:series.{op}',
+                   {'call': f'series.{op}(ascending={asc}, key={kfspec and kfspec[0] + "->" + kfspec[2]})', 'series': lit.oseries(sr), 'index_depth': idepth, 'observed': obs},
+                   m=m_unless_2d_garbage(f'oseries_res_eqb ({mfun} {P} {sseries_lit(sr, idepth)} {opt(keyres)} {lit.b(asc)}) {obs}', kfspec, keyvecs, idepth, n),
+                   s=f'oseries_res_eqb (Ok (S_series_sort {lit.oseries(sr)} {keys_lit} {lit.b(asc)})) {obs}',
+                   tags=tags, nontrivial=nontrivial(keyvecs, n))
+
+
+def index_cases(ctx):
+    # Index.sort / IndexHierarchy.sort: labels (and name, class) of the result
+    rng = ctx.rng
+    for _ in range(ctx.n(220, 2500)):
+        depth = rng.choice((1, 1, 2, 3))
+        n = rng.randint(0 if depth == 1 else 1, 8)
+        labels = pick_index(rng, n, depth)
+        n = len(labels)
+        name = rng.choice((None, 'ix', ('p', 'q')))
+        idx = mk_index(labels, depth, name=name)
+        asc = rng.random() < 0.5
+        kfn, kfspec, keyvecs, items = index_sort_pieces(rng, labels, depth)
+        tags = {'op': 'Index.sort' if depth == 1 else 'IndexHierarchy.sort', 'depth': depth}
+        if one_col_2d(kfspec, keyvecs):
+            tags['finding'] = 'C12-key-2d-one-column'
+        elif kfspec is not None:
+            hier_tag(tags, depth, labels, keyvecs, asc)
+        obs, out = run_obs(lambda: idx.sort(ascending=asc, key=kfn), lambda r: lit.vlist(lit.labels(r)))
+        py_fail = None
+        if not isinstance(out, Exception):
+            if out.name != idx.name:
+                py_fail = f'name {idx.name!r} became {out.name!r}'
+            elif out.__class__ is not idx.__class__:
+                py_fail = f'class {idx.__class__.__name__} became {out.__class__.__name__}'
+        keyres = keyres_of(kfn, items)
+        keys_lit = vecs_lit(keyvecs) if kfspec is not None else f'(index_keys {depth}%nat {lit.vlist(labels)})'
+        ctx.count(f'ix.sort:depth{depth}', f'ix.sort:key:{kfspec[0] + "/" + kfspec[2] if kfspec else "none"}', f'ix.sort:asc{int(asc)}', f'ix.sort:n{n}')
+        yield Case('api:index.sort',
+                   {'call': f'index.sort(ascending={asc}, key={kfspec and kfspec[0] + "->" + kfspec[2]})', 'labels': [repr(l) for l in labels], 'depth': depth, 'observed': obs},
+                   m=m_unless_2d_garbage(f'labels_res_eqb (M_index_sort {P} {depth}%nat {lit.vlist(labels)} {opt(keyres)} {lit.b(asc)}) {obs}', kfspec, keyvecs, depth, n),
+                   s=f'labels_res_eqb (Ok (S_index_sort {lit.vlist(labels)} {keys_lit} {lit.b(asc)})) {obs}',
+                   py_fail=py_fail, tags=tags, nontrivial=nontrivial(keyvecs, n))
+
+
+# --------------------------------------------------------------------------- exhaustive layouts
+LAYOUT_FAMILIES = [
+    # (kinds, column data) -- 4 rows, duplicates in every column
+    (('int', 'int', 'float'), [[1, 0, 1, 0], [2, 2, -1, -1], [0.5, float('nan'), -1.5, 0.5]]),
+    (('int', 'int', 'int'), [[3, 1, 3, 1], [0, 0, 0, 7], [-1, 2, -1, 2]]),
+    (('str', 'int', 'int'), [['b', 'a', 'b', 'ab'], [1, 1, 0, 0], [5, 5, 5, 5]]),
+    (('float', 'float', 'bool', 'bool'), [[2.0, -1.0, 2.0, 0.0], [0.5, 0.5, 0.5, -1.5], [True, False, True, True], [False, False, True, False]]),
+]
+_DT = {'int': np.int64, 'float': np.float64, 'str': '<U2', 'bool': bool}
+
+
+def layout_cases(ctx):
+    # every block layout of small fixed frames x (sort_values by 1/2/3 columns, by 1/2 rows, sort_index, sort_columns) x direction
+    rng = ctx.rng
+    fams = LAYOUT_FAMILIES if ctx.tier == 'thorough' else LAYOUT_FAMILIES[:3]
+    for kinds, data in fams:
+        cols = [np.array(d, dtype=_DT[k]) for k, d in zip(kinds, data)]
+        il = ['r', 'a', 'z', 'c']
+        cl = ['y', 'x', 'w', 'v'][:len(cols)]
+        comparable = 'str' not in kinds
+        for layout in zoo.layouts_for([c.dtype for c in cols]):
+            f = zoo.frame_from_columns(cols, layout, index=mk_index(il, 1), columns=mk_index(cl, 1), name='L')
+            jobs = [(1, [0], True), (1, [1, 0], False), (1, [2, 0, 1], False)]
+            if comparable:
+                jobs += [(0, [0], True), (0, [1, 3], False)]
+            for axis, sel, single in jobs:
+                for asc in (True, False):
+                    yield frame_sort_values_case(ctx, rng, f, cols, il, cl, 1, 1, layout, axis, sel, single, asc, None, 'api:layouts.sort_values')
+            for op, axis, labels in (('sort_index', 1, il), ('sort_columns', 0, cl)):
+                for asc in (True, False):
+                    obs, _ = run_obs(lambda: getattr(f, op)(ascending=asc), lit.oframe)
+                    mfun = 'M_frame_sort_index' if op == 'sort_index' else 'M_frame_sort_columns'
+                    ctx.count(f'layouts:{op}', f'layout:{zoo.layout_str(layout)}')
+                    yield Case(f'api:layouts.{op}', {'call': f'frame.{op}(ascending={asc})', 'frame': lit.oframe(f), 'layout': zoo.layout_str(layout), 'observed': obs},
+                               m=f'oframe_res_eqb ({mfun} {P} {sframe_lit(f, 1, 1)} None {lit.b(asc)}) {obs}',
+                               s=f'oframe_res_eqb (Ok (S_frame_sort {axis} {lit.oframe(f)} (index_keys 1%nat {lit.vlist(labels)}) {lit.b(asc)})) {obs}',
+                               tags={'op': f'Frame.{op}', 'layouts': True})
+
+
+# --------------------------------------------------------------------------- malformed key results
+def _short(r):
+    import static_frame as sf
+    if isinstance(r, (sf.Frame, sf.Series)):
+        return r.iloc[:-1]
+    return r[:-1]
+
+
+def _short_axis0(r):
+    import static_frame as sf
+    if isinstance(r, sf.Frame):
+        return r.iloc[:, :-1]
+    if isinstance(r, sf.Series):
+        return r.iloc[:-1]
+    return r[:-1] if r.ndim == 1 else r[:, :-1]
+
+
+def _long(r):
+    import static_frame as sf
+    if isinstance(r, sf.Series):
+        return sf.Series(np.concatenate([r.values, r.values[:1]]))
+    return np.concatenate([r, r[:1]])
+
+
+def malformed_cases(ctx):
+    # key functions returning a container of the wrong length: the call must raise (never return a container that lost or invented rows)
+    rng = ctx.rng
+    for _ in range(ctx.n(130, 1200)):
+        which = rng.choice(('series.sort_values', 'series.sort_index', 'frame.sort_values', 'frame.sort_index', 'index.sort'))
+        asc = rng.random() < 0.5
+        how = rng.choice(('short', 'long'))
+        if which.startswith('series'):
+            sr, vals, labels, kind = make_series(rng, rng.randint(2, 6), 1, kind=rng.choice(('int', 'float')))
+            if which == 'series.sort_values':
+                items = [(v,) for v in pyvals(vals)]
+                out = rng.choice(('arr1', 'series'))
+                kf = rng.choice((kf_neg, kf_ident, kf_mod2))
+                kfn = KeyFn(kf, out, mangle=_short if how == 'short' else _long)
+                obs, _ = run_obs(lambda: sr.sort_values(ascending=asc, key=kfn), lit.oseries)
+                mfun = 'M_series_sort_values'
+                tags = {'op': 'Series.sort_values', 'malformed': how}
+                if how == 'short':
+                    tags['finding'] = 'C12-series-key-short'
+            else:
+                items = label_items(labels, 1)
+                allnum = all(not isinstance(t[0], str) for t in items)
+                kf = kf_neg if allnum else kf_len
+                kfn = KeyFn(kf, 'arr1', mangle=_short if how == 'short' else _long)
+                obs, _ = run_obs(lambda: sr.sort_index(ascending=asc, key=kfn), lit.oseries)
+                mfun = 'M_series_sort_index'
+                tags = {'op': 'Series.sort_index', 'malformed': how}
+            keyres = keyres_of(kfn, items)
+            ctx.count(f'malformed:{which}:{how}')
+            yield Case('malformed:key-length', {'call': f'{which}(ascending={asc}, key=<{how} by one>)', 'series': lit.oseries(sr), 'observed': obs},
+                       m=f'oseries_res_eqb ({mfun} {P} {sseries_lit(sr, 1)} {opt(keyres)} {lit.b(asc)}) {obs}',
+                       s=f'@res_is_err oseries {obs}', tags=tags)
+        elif which == 'frame.sort_values':
+            axis = rng.choice((1, 0))
+            f, cols, il, cl, kinds, layout = make_frame(rng, rng.randint(2, 5), rng.randint(2, 4), 1, 1, kinds=None, comparable=True)
+            if any(c.dtype.kind == 'U' for c in cols):
+                continue
+            other = f.shape[1] if axis == 1 else f.shape[0]
+            k = rng.randint(1, min(2, other))
+            sel = rng.sample(range(other), k)
+            single = k == 1 and rng.random() < 0.5
+            out = rng.choice(('arr1', 'series') if k == 1 else ('arr2', 'frame'))
+            if how == 'long' and (out == 'frame' or (axis == 0 and out == 'arr2')):
+                how = 'short'
+            mangle = (_short if axis == 1 else _short_axis0) if how == 'short' else _long
+            yield frame_sort_values_case(ctx, rng, f, cols, il, cl, 1, 1, layout, axis, sel, single, asc, ('neg', kf_neg, out),
+                                         'malformed:key-length', mangle=mangle, mangle_name=how)
+        else:
+            labels = flat_labels(rng, rng.randint(2, 6), 'int')
+            items = label_items(labels, 1)
+            out = rng.choice(('arr1', 'arr2'))
+            kf = kf_neg if out == 'arr1' else (lambda t: (t[0] % 2, -t[0]))
+            kfn = KeyFn(kf, out, mangle=_short if how == 'short' else _long)
+            if which == 'index.sort':
+                idx = mk_index(labels, 1)
+                obs, _ = run_obs(lambda: idx.sort(ascending=asc, key=kfn), lambda r: lit.vlist(lit.labels(r)))
+                keyres = keyres_of(kfn, items)
+                m = f'labels_res_eqb (M_index_sort {P} 1%nat {lit.vlist(labels)} {opt(keyres)} {lit.b(asc)}) {obs}'
+                desc = {'call': f'index.sort(ascending={asc}, key=<{how} by one>)', 'labels': labels, 'observed': obs}
+            else:
+                f, cols, il, cl, kinds, layout = make_frame(rng, len(labels), rng.randint(1, 3), 1, 1)
+                f = f.relabel(index=labels)
+                obs, _ = run_obs(lambda: f.sort_index(ascending=asc, key=kfn), lit.oframe)
+                keyres = keyres_of(kfn, items)
+                m = f'oframe_res_eqb (M_frame_sort_index {P} {sframe_lit(f, 1, 1)} {opt(keyres)} {lit.b(asc)}) {obs}'
+                desc = {'call': f'frame.sort_index(ascending={asc}, key=<{how} by one>)', 'frame': lit.oframe(f), 'observed': obs}
+            ctx.count(f'malformed:{which}:{how}')
+            ty = '(list val)' if which == 'index.sort' else 'oframe'
+            yield Case('malformed:key-length', desc, m=m, s=f'@res_is_err {ty} {obs}', tags={'op': which, 'malformed': how})
+
+
+# --------------------------------------------------------------------------- fixed witnesses of the known findings
+def witness_cases(ctx):
+    import static_frame as sf
+    rng = ctx.rng
+    # C12-series-key-short
+    sr = sf.Series(np.array([3, 1, 2, 1]), index=('a', 'b', 'c', 'd'), name='n')
+    kfn = KeyFn(kf_ident, 'arr1', mangle=lambda r: r[:2])
+    obs, _ = run_obs(lambda: sr.sort_values(key=kfn), lit.oseries)
+    yield Case('witness:series-key-short', {'call': 'sf.Series((3,1,2,1), index=tuple("abcd"), name="n").sort_values(key=lambda s: s.values[:2])', 'observed': obs},
+               m=f'oseries_res_eqb (M_series_sort_values {P} {sseries_lit(sr, 1)} {opt(cfs_lit(kfn.returned))} true) {obs}',
+               s=f'@res_is_err oseries {obs}', tags={'op': 'Series.sort_values', 'malformed': 'short', 'finding': 'C12-series-key-short'})
+    # C12-key-2d-one-column
+    sr2 = sf.Series(np.array([3, 1, 2]), index=('a', 'b', 'c'))
+    kfn = KeyFn(lambda t: (-ord(t[0]),), 'arr2')
+    items = label_items(['a', 'b', 'c'], 1)
+    keyvecs = key_vectors(items, kfn.kf)
+    obs, _ = run_obs(lambda: sr2.sort_index(key=kfn), lit.oseries)
+    yield Case('witness:key-2d-one-column', {'call': 'series.sort_index(key=lambda i: <(n,1) array>)', 'series': lit.oseries(sr2), 'observed': obs},
+               m=f'oseries_res_eqb (M_series_sort_index {P} {sseries_lit(sr2, 1)} {opt(cfs_lit(kfn.returned))} true) {obs}',
+               s=f'oseries_res_eqb (Ok (S_series_sort {lit.oseries(sr2)} {vecs_lit(keyvecs)} true)) {obs}',
+               tags={'op': 'Series.sort_index', 'finding': 'C12-key-2d-one-column'})
+    # C12-hier-untree
+    il = [('b', 2), ('b', 1), ('a', 5)]
+    cols = [np.array([0, 2, 1])]
+    layout = ((1, False),)
+    f = zoo.frame_from_columns(cols, layout, index=mk_index(il, 2), columns=mk_index(['p'], 1), name=None)
+    yield frame_sort_values_case(ctx, rng, f, cols, il, ['p'], 2, 1, layout, 1, [0], True, True, None, 'witness:hier-untree')
+
+
+def long_cases(ctx):
+    # beyond the small-array thresholds of NumPy's sorts (an unstable kind behaves stably on short arrays): many ties
+    import static_frame as sf
+    rng = ctx.rng
+    for _ in range(ctx.n(50, 400)):
+        n = rng.randint(20, 70)
+        asc = rng.random() < 0.5
+        which = rng.choice(('series.sort_values', 'series.sort_index-key', 'frame.sort_values', 'index.sort-key', 'frame.sort_columns-key'))
+        kind = rng.choice(('int', 'float', 'str', 'int'))
+        if which == 'series.sort_values':
+            vals = gen_col(rng, kind, n, distinct=rng.randint(2, 4))
+            sr = sf.Series(vals, index=list(range(100, 100 + n)), name='long')
+            obs, _ = run_obs(lambda: sr.sort_values(ascending=asc), lit.oseries)
+            ctx.count('long:series.sort_values', f'long:kind:{kind}')
+            yield Case('api:long.series.sort_values', {'call': f'series.sort_values(ascending={asc})', 'series': lit.oseries(sr), 'observed': obs},
+                       m=f'oseries_res_eqb (M_series_sort_values {P} {sseries_lit(sr, 1)} None {lit.b(asc)}) {obs}',
+                       s=f'oseries_res_eqb (Ok (S_series_sort {lit.oseries(sr)} [os_values {lit.oseries(sr)}] {lit.b(asc)})) {obs}',
+                       tags={'op': 'Series.sort_values', 'long': True})
+        elif which in ('series.sort_index-key', 'index.sort-key', 'frame.sort_columns-key'):
+            labels = rng.sample(range(-50, 150), n)
+            items = label_items(labels, 1)
+            mod = rng.choice((2, 3))
+            kf = lambda t, mod=mod: (t[0] % mod,)
+            kfn = KeyFn(kf, 'arr1')
+            keyvecs = key_vectors(items, kf)
+            if which == 'series.sort_index-key':
+                sr = sf.Series(np.arange(n), index=labels)
+                obs, _ = run_obs(lambda: sr.sort_index(ascending=asc, key=kfn), lit.oseries)
+                m = f'oseries_res_eqb (M_series_sort_index {P} {sseries_lit(sr, 1)} {opt(keyres_of(kfn, items))} {lit.b(asc)}) {obs}'
+                st = f'oseries_res_eqb (Ok (S_series_sort {lit.oseries(sr)} {vecs_lit(keyvecs)} {lit.b(asc)})) {obs}'
+                desc = {'call': f'series.sort_index(ascending={asc}, key=lambda i: i.values % {mod})', 'series': lit.oseries(sr), 'observed': obs}
+            elif which == 'index.sort-key':
+                idx = sf.Index(labels)
+                obs, _ = run_obs(lambda: idx.sort(ascending=asc, key=kfn), lambda r: lit.vlist(lit.labels(r)))
+                m = f'labels_res_eqb (M_index_sort {P} 1%nat {lit.vlist(labels)} {opt(keyres_of(kfn, items))} {lit.b(asc)}) {obs}'
+                st = f'labels_res_eqb (Ok (S_index_sort {lit.vlist(labels)} {vecs_lit(keyvecs)} {lit.b(asc)})) {obs}'
+                desc = {'call': f'index.sort(ascending={asc}, key=lambda i: i.values % {mod})', 'labels': labels, 'observed': obs}
+            else:
+                f = sf.Frame(np.arange(2 * n).reshape(2, n), columns=labels, index=('r0', 'r1'))
+                obs, _ = run_obs(lambda: f.sort_columns(ascending=asc, key=kfn), lit.oframe)
+                m = f'oframe_res_eqb (M_frame_sort_columns {P} {sframe_lit(f, 1, 1)} {opt(keyres_of(kfn, items))} {lit.b(asc)}) {obs}'
+                st = f'oframe_res_eqb (Ok (S_frame_sort 0 {lit.oframe(f)} {vecs_lit(keyvecs)} {lit.b(asc)})) {obs}'
+                desc = {'call': f'frame.sort_columns(ascending={asc}, key=lambda i: i.values % {mod})', 'frame': lit.oframe(f), 'observed': obs}
+            ctx.count(f'long:{which}')
+            yield Case(f'api:long.{which}', desc, m=m, s=st, tags={'op': which, 'long': True})
+        else:
+            kinds = [rng.choice(('int', 'float', 'str', 'bool')) for _ in range(rng.randint(1, 3))]
+            cols = [gen_col(rng, k, n, distinct=rng.randint(2, 3)) for k in kinds]
+            layout = rng.choice(list(zoo.layouts_for([c.dtype for c in cols])))
+            il = list(range(n))
+            cl = ['k0', 'k1', 'k2'][:len(cols)]
+            f = zoo.frame_from_columns(cols, layout, index=mk_index(il, 1), columns=mk_index(cl, 1), name='long')
+            sel = rng.sample(range(len(cols)), rng.randint(1, len(cols)))
+            yield frame_sort_values_case(ctx, rng, f, cols, il, cl, 1, 1, layout, 1, sel, len(sel) == 1, asc, None, 'api:long.frame.sort_values')
+
+
 def cases(ctx):
+    yield from witness_cases(ctx)
     yield from oracle_cases(ctx)
     yield from sifo_cases(ctx)
+    yield from layout_cases(ctx)
+    yield from long_cases(ctx)
+    yield from series_cases(ctx)
+    yield from frame_values_cases(ctx)
+    yield from frame_index_cases(ctx)
+    yield from index_cases(ctx)
+    yield from malformed_cases(ctx)
